@@ -131,6 +131,14 @@ func recordInstances(id string, inst map[string]string) {
 	for i, c := range cores {
 		fmt.Fprintf(&sb, "#%d %s\n", i, c)
 	}
+	var fl []string
+	for c := range checks.FlakyCores(id) {
+		fl = append(fl, c)
+	}
+	sort.Strings(fl)
+	for _, c := range fl {
+		fmt.Fprintf(&sb, "~ %s\n", c)
+	}
 	for _, k := range keys {
 		fmt.Fprintf(&sb, "%s %d\n", k, coreIdx[all[k]])
 	}
